@@ -32,4 +32,18 @@ def reviewedTruthiness : List (String × String × String) := [
 theorem selection_arguments_not_tested_by_truthiness :
     ∀ s ∈ truthinessSites, reviewedTruthiness.contains s = true := by decide +kernel
 
+/-- comparisons of such a parameter by identity (`is` / `is not`) with anything but None: only the chained
+    `key is lkey is rkey is None` idiom of keys_from_args (all three omitted).  A cell is never the same object as an
+    argument, so `x is missing` is not `x == missing`. -/
+def reviewedIdentity : List (String × String × String) := [
+  ("transform.joins.keys_from_args", "key", "key is lkey is rkey is None"),
+  ("transform.joins.keys_from_args", "lkey", "key is lkey is rkey is None"),
+  ("transform.joins.keys_from_args", "lkey", "lkey is rkey is None"),
+  ("transform.joins.keys_from_args", "rkey", "key is lkey is rkey is None"),
+  ("transform.joins.keys_from_args", "rkey", "lkey is rkey is None")
+]
+
+theorem selection_arguments_not_compared_by_identity :
+    ∀ s ∈ identitySites, reviewedIdentity.contains s = true := by decide +kernel
+
 end Petl.ArgForms
